@@ -9,7 +9,7 @@ EXPLANATION = (
     "Outgoing::free_slots() (minus what was already taken, or the constant 1 of round-robin), free_slots()==0 returns InflightFull before any read, MAX_PKID == MAX_INFLIGHT, and push_forwards is the only function "
     "that grows inflight_buffer / advances last_pkid while register_ack is the only one that shrinks it; "
     "(R-C09-fifo) register_ack/register_pubcomp pop the front and compare; every None result in the router sets the disconnect flag before the iteration ends and the final handle_disconnection gets the handler's own id; "
-    "(R-C09-resume) the PubAck and PubRec arms reach reschedule(id, IncomingAck) on every non-disconnect path, (IncomingAck, InflightFull) wakes the tracker (exhaustive table), every BufferFull return is preceded by "
+    "(R-C09-resume) the PubAck and PubRec arms lead, on every non-disconnect path, to a reschedule of the connection whose reason wakes it from InflightFull per the exhaustive try_ready table (called in the arm, or after the loop under a flag the arm sets), (IncomingAck, InflightFull) wakes the tracker (exhaustive table), every BufferFull return is preceded by "
     "push_notification(Unschedule), and RemoteLink::start calls LinkRx::wake after writing a batch that contained an Unschedule. "
     "NOT decided: 'never more than 100' and id uniqueness as numeric invariants over all histories (only that the read length derives from the free-slot count).")
 ASSUMPTIONS = ["rustc MIR construction is correct", "tokio::select! expansion keeps the user-written branch bodies as ordinary blocks (only those are analysed)"]
@@ -271,13 +271,11 @@ def resume(ctx, prog):
     after = reachable_after(body, [sbb])
     heads = [d for d in dom[sbb] if d in after]
     loop_head = max(heads, key=lambda x: len(dom[x]))
-    resched = set()
-    for bb, t in body.calls():
-        if callee_path(t).endswith("Scheduler::reschedule") and not body.is_cleanup(bb):
-            if any(s.kind == "agg" and s.var == "IncomingAck" for s in flatten_src(provenance(body, t["args"][2]))):
-                ks = flatten_src(provenance(body, t["args"][1]))
-                if ks and all(s.kind == "param" and s.l == 2 for s in ks):
-                    resched.add(bb)
+    # what wakes the connection out of InflightFull: a reschedule of its own id with a reason that does so according to
+    # the exhaustive try_ready table — called in the arm, or after the loop under a flag the arm sets
+    from .c06 import wake_points
+    direct, flagged = wake_points(prog, body, "InflightFull")
+    resched = direct | flagged
     for variant in ("PubAck", "PubRec"):
         entry = m.get(variant)
         if entry is None:
@@ -295,10 +293,10 @@ def resume(ctx, prog):
         leak = [e for e in exits if e in r and e not in disc_blocks]
         if leak:
             ctx.violation(rule, body.id, "%s without reschedule" % variant,
-                          "a %s that frees a window slot can end its iteration without reschedule(id, IncomingAck): the backlog is not resumed" % variant,
+                          "a %s that frees a window slot can end its iteration without a reschedule of the connection that wakes it from InflightFull (neither directly nor through the after-loop flag): the backlog is not resumed" % variant,
                           site=body.loc(body.blocks[entry]["t"].get("sp")))
         else:
-            ctx.ok(rule, body.id, "%s arm: every non-disconnect path reschedules with IncomingAck" % variant)
+            ctx.ok(rule, body.id, "%s arm: every non-disconnect path leads to a reschedule that wakes the connection from InflightFull" % variant)
     # table row
     tr = prog.one(r"^router::scheduler::Tracker::try_ready$")
     try:
